@@ -452,7 +452,11 @@ def validateTx (cfg : Cfg) (H : HashFn) (frames : List Frame) (c : Commit) : Exc
 def selectFrames (frames : List Frame) (c : Commit) : List Frame :=
   frames.filter (fun f => f.header.txId = c.txId ∧ c.firstLsn ≤ f.header.lsn ∧ f.header.lsn ≤ c.lastLsn)
 
-/-- the loop over commit markers; returns recovered transactions and the last commit's `last_lsn` -/
+/-- LEGACY (the loop as it was BEFORE /repo commit 891bbae, without the commit-marker tiling check).
+    No entry point of the model uses it any more: the current loop is `recoverLoopT` in
+    `Model/WalIntegrity.lean`.  It is kept only because `Lemmas/WalRecover.recoverFC_prefix` (about this
+    loop) is the stepping stone of `Lemmas/WalTiling.recoverFCT_prefix` (the same statement for the
+    current loop). -/
 def recoverLoop (cfg : Cfg) (H : HashFn) (frames : List Frame) :
     List Commit → Except VErr (List RecoveredTx × Option Nat)
   | [] => .ok ([], none)
@@ -472,7 +476,7 @@ def tailOf (mode : Mode) (last : Option Nat) : Tail :=
   | .writable, none => .truncatedAll
   | .readOnly, none => .wouldTruncateAll
 
-/-- `recover_from_frames_and_commits` -/
+/-- LEGACY `recover_from_frames_and_commits` before 891bbae (see `recoverLoop`); current code: `recoverFCT` -/
 def recoverFC (cfg : Cfg) (H : HashFn) (frames : List Frame) (commits : List Commit) (mode : Mode) :
     Except VErr Report :=
   match validateFrameOrder cfg H frames with
@@ -500,53 +504,14 @@ def firstSegmentMismatch (segmentId : Nat) : List Frame → Option Nat
   | [] => none
   | f :: fs => if f.header.segmentId ≠ segmentId then some f.header.segmentId else firstSegmentMismatch segmentId fs
 
-/-- `recover_wal_segment_bytes`: result = (segment digest, report) -/
-def recoverSegmentBytes (cfg : Cfg) (H : HashFn) (segmentId : Nat) (bs : Bytes) (mode : Mode) :
-    Except RErr (Bytes × Report) :=
-  match scan cfg H (decodeRec cfg H) bs with
-  | .error e => .error e
-  | .ok (recs, torn) =>
-    let frames := framesOf recs
-    match firstSegmentMismatch segmentId frames with
-    | some actual => .error (.segment segmentId actual)
-    | none =>
-      match recoverFC cfg H frames (commitsOf recs) mode with
-      | .error e => .error (.validation e)
-      | .ok r => .ok (segmentDigest cfg H segmentId frames, applyTorn mode torn r)
-
-/-- `recover_filesystem_store` for a root with one segment file: frames are sorted by LSN and
-    commit markers by `last_lsn` before recovery (`read_filesystem_segments`). -/
-def recoverFilesystem (cfg : Cfg) (H : HashFn) (bs : Bytes) (mode : Mode) : Except RErr Report :=
-  match scan cfg H (decodeRec cfg H) bs with
-  | .error e => .error e
-  | .ok (recs, torn) =>
-    let frames := sortBy (fun f => f.header.lsn) (framesOf recs)
-    let commits := sortBy (fun c => c.lastLsn) (commitsOf recs)
-    match recoverFC cfg H frames commits mode with
-    | .error e => .error (.validation e)
-    | .ok r => .ok (applyTorn mode torn r)
+/-! The byte-level entry points (`recover_wal_segment_bytes`, `recover_filesystem_store`) and the
+    truncation rewrite are defined over the CURRENT loop: `recoverSegmentBytesT` / `recoverFilesystemT`
+    in `Model/WalIntegrity.lean`, `afterWritableRecoveryT` in `Model/WalDurable.lean`. -/
 
 /-- segment bytes written by `rewrite_segment_records`: all kept frames, then all kept commits -/
 def encodeRecords (cfg : Cfg) (H : HashFn) (frames : List Frame) (commits : List Commit) : Bytes :=
   frames.flatMap (fun f => encRec cfg H (UInt8.ofNat cfg.frameTag) (encodeFrame f))
     ++ commits.flatMap (fun c => encRec cfg H (UInt8.ofNat cfg.commitTag) (encodeCommit c))
-
-/-- what writable `recover_filesystem_store` leaves on disk (one segment): unchanged when nothing
-    is truncated, else `rewrite_filesystem_segments_after_truncation` / `clear_filesystem_segments`. -/
-def afterWritableRecovery (cfg : Cfg) (H : HashFn) (bs : Bytes) : Except RErr (Report × Bytes) :=
-  match recoverFilesystem cfg H bs .writable with
-  | .error e => .error e
-  | .ok r =>
-    match r.tail with
-    | .truncatedAfter lsn =>
-      match scan cfg H (decodeRec cfg H) bs with
-      | .error e => .error e
-      | .ok (recs, _) =>
-        let frames := (sortBy (fun f => f.header.lsn) (framesOf recs)).filter (fun f => f.header.lsn ≤ lsn)
-        let commits := (sortBy (fun c => c.lastLsn) (commitsOf recs)).filter (fun c => c.lastLsn ≤ lsn)
-        .ok (r, encodeRecords cfg H frames commits)
-    | .truncatedAll => .ok (r, [])
-    | _ => .ok (r, bs)
 
 /-! ### the writer: `WalTransactionBuilder`, `append_transaction` -/
 
